@@ -123,7 +123,7 @@ T density_sketch<T, K, A>::get_estimate(const std::vector<T>& point) const {
   T density = 0;
   for (unsigned height = 0; height < levels_.size(); ++height) {
     for (const auto& p: levels_[height]) {
-      density += (1 << height) * kernel_(p, point) / n_;
+      density += static_cast<T>(1ULL << height) * kernel_(p, point) / n_;
     }
   }
   return density;
